@@ -292,8 +292,9 @@ func namedOf(t types.Type) *types.Named {
 	if t == nil {
 		return nil
 	}
+	t = types.Unalias(t)
 	if pt, ok := t.(*types.Pointer); ok {
-		t = pt.Elem()
+		t = types.Unalias(pt.Elem())
 	}
 	nt, _ := t.(*types.Named)
 	return nt
